@@ -108,6 +108,10 @@ pub struct TraitCase {
     /// the tested method is a PROVIDED one (it has a default body, which must never run: the clause answers)
     #[serde(default)]
     pub provided: bool,
+    /// the call is made by a destructor that runs while the thread unwinds from a user panic (RAII cleanup):
+    /// matcher and answer function must see the arguments exactly as in a plain call
+    #[serde(default)]
+    pub from_unwinding_destructor: bool,
 }
 
 impl TraitCase {
@@ -117,6 +121,9 @@ impl TraitCase {
     pub fn has_default_body(&self) -> bool {
         // (provided methods with a Box<Self> receiver are not supported by the macro: calibrated on the unchanged tree)
         self.provided && self.api != Api::Hidden && self.asy != Asy::ImplFuture && self.recv != Recv::Boxed
+    }
+    pub fn calls_while_unwinding(&self) -> bool {
+        self.from_unwinding_destructor && self.asy == Asy::Sync && !self.calls_twice()
     }
     pub fn calls_twice(&self) -> bool {
         self.ordered_twice
@@ -670,7 +677,18 @@ pub fn source(c: &TraitCase) -> String {
     } else {
         s.push_str("    let pre: Vec<String> = vec![];\n");
     }
-    if c.asy == Asy::Sync {
+    if c.calls_while_unwinding() {
+        // the call is the body of a destructor that runs during the unwinding of a (caught) user panic
+        s.push_str("    struct OnDrop<F: FnOnce()>(Option<F>);\n    impl<F: FnOnce()> Drop for OnDrop<F> { fn drop(&mut self) { if let Some(f) = self.0.take() { f() } } }\n");
+        s.push_str("    let mut slot = None;\n    let was_unwinding = std::cell::Cell::new(false);\n");
+        s.push_str(&format!(
+            "    let _ = std::panic::catch_unwind(std::panic::AssertUnwindSafe(|| {{\n        let _guard = OnDrop(Some(|| {{ was_unwinding.set(std::thread::panicking()); slot = Some({}); }}));\n        std::panic::resume_unwind(Box::new(\"user panic (expected)\"));\n    }}));\n",
+            call(&recv_arg)
+        ));
+        s.push_str("    assert!(was_unwinding.get(), \"HARNESS: the destructor did not run during an unwinding\");\n");
+        s.push_str("    let r = slot.expect(\"HARNESS: the destructor did not run\");\n    let ret = format!(\"{:?}\", r);\n");
+        s.push_str("    let lazy = \"n/a\".to_string();\n");
+    } else if c.asy == Asy::Sync {
         s.push_str(&format!(
             "    let r = {};\n    let ret = format!(\"{{:?}}\", r);\n",
             call(&recv_arg)
@@ -806,6 +824,7 @@ pub fn judge(c: &TraitCase, line: &str) -> Result<CaseInfo, String> {
         .class_if(c.twin, "has-twin-method-of-same-signature")
         .class_if(c.calls_twice(), "ordered-clause-n_times(2)-called-twice")
         .class_if(c.has_default_body(), "provided-method(default-body-must-not-run)")
+        .class_if(c.calls_while_unwinding(), "called-by-a-destructor-during-unwinding")
         .class_if(parts[3] == "0", "future-dropped-unpolled"))
 }
 
@@ -833,9 +852,9 @@ pub fn case_strategy() -> impl Strategy<Value = TraitCase> {
         0..3usize,
         0..3usize,
         any::<bool>(),
-        (any::<bool>(), proptest::bool::weighted(0.35), proptest::bool::weighted(0.3)),
+        (any::<bool>(), proptest::bool::weighted(0.35), proptest::bool::weighted(0.3), proptest::bool::weighted(0.3)),
     )
-        .prop_map(|(recv, mut params, ret_sel, mut asy, api, before, after, arc, (twin, ordered_twice, provided))| {
+        .prop_map(|(recv, mut params, ret_sel, mut asy, api, before, after, arc, (twin, ordered_twice, provided, from_unwinding_destructor))| {
             // at most one impl-Trait parameter (explicit type arguments cannot name further ones portably)
             let mut seen_impl = false;
             for p in params.iter_mut() {
@@ -900,11 +919,11 @@ pub fn case_strategy() -> impl Strategy<Value = TraitCase> {
                 // Rc<Self> futures are !Send; fine, but keep the grammar to what the macro documents
                 asy = Asy::Sync;
             }
-            TraitCase { recv, params, ret, asy, api, before, after, arc, twin, ordered_twice, provided }
+            TraitCase { recv, params, ret, asy, api, before, after, arc, twin, ordered_twice, provided, from_unwinding_destructor }
         })
 }
 
-pub const RULE: &str = "programs = generated #[unimock] traits: receiver {&self, &mut self, self, Rc<Self>, Arc<Self>, Pin<&mut Self>, Box<Self>} x 0-5 parameters from {u8, i32, &str, String, Vec<u8>, &u32, &[u8], &mut u32, &mut Vec<u8>, &mut &'static str, (u8,String), Option<&u32>, trait-level generic, method-level generic, impl Trait} with adjacent parameters often sharing a type x return {unit, u32, String, &u32 from self, &'a u32 from a parameter, generic} x {sync, async fn, -> impl Future} x api {module, flattened, hidden via unmock_with} x position of the method among 0-2 other methods; pairwise distinct argument values. Non-trivial = arity >= 2, or a &mut / generic / impl-Trait parameter, or a receiver other than &self, or async; distinct = distinct shape";
+pub const RULE: &str = "programs = generated #[unimock] traits: receiver {&self, &mut self, self, Rc<Self>, Arc<Self>, Pin<&mut Self>, Box<Self>} x 0-5 parameters from {u8, i32, &str, String, Vec<u8>, &u32, &[u8], &mut u32, &mut Vec<u8>, &mut &'static str, (u8,String), Option<&u32>, trait-level generic, method-level generic, impl Trait} with adjacent parameters often sharing a type x return {unit, u32, String, &u32 from self, &'a u32 from a parameter, generic} x {sync, async fn, -> impl Future} x api {module, flattened, hidden via unmock_with} x position of the method among 0-2 other methods; pairwise distinct argument values; the clause optionally ordered with n_times(2) and called twice, the method optionally a provided one, the (sync) call optionally made by a destructor while the thread unwinds from a caught user panic. Non-trivial = arity >= 2, or a &mut / generic / impl-Trait parameter, or a receiver other than &self, or async; distinct = distinct shape";
 
 fn spec<'a>() -> Spec<'a, TraitCase> {
     Spec {
